@@ -33,7 +33,9 @@ DOMAIN = ["binary operators are written with spaces on both sides (the lexer's s
 
 HOSTS = [("class", "expression", "CLASS\nEXPRESSION {}\nEND"), ("layer", "filter", "LAYER\nFILTER {}\nEND"),
          ("class", "text", "CLASS\nTEXT {}\nEND"), ("style", "geomtransform", "STYLE\nGEOMTRANSFORM {}\nEND"),
-         ("cluster", "group", "CLUSTER\nGROUP {}\nEND"), ("cluster", "filter", "CLUSTER\nFILTER {}\nEND")]
+         ("cluster", "group", "CLUSTER\nGROUP {}\nEND"), ("cluster", "filter", "CLUSTER\nFILTER {}\nEND"),
+         ("layer", "geomtransform", "LAYER\nGEOMTRANSFORM {}\nEND"), ("label", "text", "LABEL\nTEXT {}\nEND"),
+         ("label", "expression", "LABEL\nEXPRESSION {}\nEND")]
 
 
 class Engine:
